@@ -52,7 +52,7 @@ type sharedMaps struct {
 	keys []string
 }
 
-var taskKindNames = []string{"writer", "reader", "skipdecoder", "readerskipdecoder", "bytesskipdecoder", "ttheader-stream", "ttheader-bytes", "span-decode", "fastcodec", "strmap-get"}
+var taskKindNames = []string{"writer", "reader", "skipdecoder", "readerskipdecoder", "bytesskipdecoder", "ttheader-stream", "ttheader-bytes", "span-decode", "fastcodec", "strmap-get", "bufiox-reader-retention", "bufiox-writer-regions"}
 
 // taskBody returns the body of a task of the given kind. Everything it needs comes from its
 // own context's tape; rec receives its observable results.
@@ -79,6 +79,10 @@ func taskBody(kind int, rec *taskRec, shared *sharedMaps) func(t *sim.Task) {
 				taskFastCodec(t, st, rec, key)
 			case 9:
 				taskStrMap(t, st, rec, shared)
+			case 10:
+				taskRetention(t, st, rec)
+			case 11:
+				taskRegions(t, st, rec)
 			}
 			c.Abs(0x700000 | uint32(kind)<<8 | uint32(cy))
 			t.Yield()
@@ -418,6 +422,58 @@ func taskFastCodec(t *sim.Task, st *sim.Stream, rec *taskRec, key uint64) {
 	}
 }
 
+// taskRetention: a bufiox reader history in which every Next/Peek slice is kept and
+// re-verified after every later operation and yield until the next Release.
+func taskRetention(t *sim.Task, st *sim.Stream, rec *taskRec) {
+	c := t.C
+	sc := newReaderScenario(c, true)
+	m := sc.m
+	weights := []int{4, 3, 1, 1, 1, 0}
+	nops := 1 + st.Choose(25)
+	for i := 0; i < nops; i++ {
+		sc.step(st, weights)
+		rec.add(uint64(m.pos)<<8 | uint64(len(m.kept)))
+		m.verifyKeptQuick("after a later operation")
+		t.Yield()
+		m.verifyKeptQuick("after other tasks ran")
+	}
+	m.verifyKept("at the end of the cycle")
+	sc.checkCaller("at the end of the cycle")
+	m.Release()
+}
+
+// taskRegions: a bufiox writer history with late fills of open regions.
+func taskRegions(t *sim.Task, st *sim.Stream, rec *taskRec) {
+	c := t.C
+	sc := newWriterScenario(c)
+	m := sc.m
+	weights := []int{4, 2, 3, 1, 0}
+	nops := 1 + st.Choose(25)
+	for i := 0; i < nops; i++ {
+		if m.target != nil && m.epoch > 0 {
+			break
+		}
+		sc.step(st, weights)
+		rec.add(uint64(m.unflushed)<<8 | uint64(m.epoch))
+		t.Yield()
+		if m.failed {
+			break
+		}
+	}
+	if !m.failed && (m.target == nil || m.epoch == 0) {
+		for _, it := range m.items {
+			if it.reg != nil && it.reg.filled != nil {
+				m.fill(it.reg, 0, len(it.reg.b))
+			}
+		}
+		m.Flush()
+	}
+	m.checkPayloads("at the end of the cycle")
+	// the sink bytes are not a result: regions the caller never filled legitimately carry
+	// whatever the allocator left there, which differs between the two passes; their
+	// correctness is judged by the region model inside Flush
+}
+
 func taskStrMap(t *sim.Task, st *sim.Stream, rec *taskRec, sh *sharedMaps) {
 	c := t.C
 	n := 5 + st.Choose(40)
@@ -453,7 +509,7 @@ func runC14(c *sim.Ctx) {
 	if c.Tier == "thorough" {
 		fenceW = 2
 	}
-	switch cfg.Pick(6, 2, fenceW) {
+	switch cfg.Pick(5, 4, fenceW) {
 	case 0:
 		a.Mode = mcache.ModeLedger
 	case 1:
